@@ -128,11 +128,13 @@ def instantiate(forms, name_to_id, rng, tier):
                 continue
             # choices: all first alternatives (register forms), then one memory alternative at a time
             choices = [[a[0] for a in alts]]
+            choice_memidx = [None]
             for k, a in enumerate(alts):
                 for alt in a[1:]:
                     c = [x[0] for x in alts]
                     c[k] = alt
                     choices.append(c)
+                    choice_memidx.append(k if alt[1].startswith("M ") else None)
             variants = []
             for c in choices:
                 variants.append(("db", [x[0] for x in c], [x[1] for x in c], 0, None))
@@ -163,10 +165,63 @@ def instantiate(forms, name_to_id, rng, tier):
                 variants.append(("db-decor", base_k + ["{er}"], base_t, OPT["er"], None))
             if f["sae"] and not any(t.startswith("M ") for t in base_t):
                 variants.append(("db-decor", base_k + ["{sae}"], base_t, OPT["sae"], None))
-            if f["broadcast"] and f["bcstSize"] > 0:
-                for v in has_mem_variant[:1]:
-                    bt = [mem_tok(mode, f["bcstSize"] // 8, bcst=1) if t.startswith("M ") else t for t in v[2]]
-                    variants.append(("db-decor", v[1] + ["{1toN}"], bt, 0, None))
+            # embedded broadcast: per form (= per vector length) the {1toN} the database implies, N = memSize / bcstSize, incl. the
+            # sub-128-bit cases (m64/b32 -> {1to2}, m64/b16 -> {1to4}, m32/b16 -> {1to2}); with the element size given and omitted, and under {k}
+            bcst_muts = []
+            if f["broadcast"]:
+                for ci, c in enumerate(choices):
+                    k = choice_memidx[ci]
+                    if k is None:
+                        continue
+                    o = expl[k]
+                    if not (o.get("bcstSize", 0) > 0 and o["memSize"] > 0 and o["memSize"] % o["bcstSize"] == 0):
+                        continue
+                    n = o["memSize"] // o["bcstSize"]
+                    if n < 2 or n & (n - 1):
+                        continue
+                    b = n.bit_length() - 1
+                    unit = o["bcstSize"] // 8
+                    ks = [x[0] for x in c]; ts = [x[1] for x in c]
+                    for label, size in (("{1to%d}" % n, unit), ("{1to%d}nosize" % n, 0)):
+                        bt = ts[:k] + [mem_tok(mode, size, bcst=b)] + ts[k + 1:]
+                        variants.append(("db-decor", ks + [label], bt, 0, None))
+                        if f["kmask"]:
+                            variants.append(("db-decor", ks + [label + "{k}"], bt, 0, (RT["k"], 3)))
+                    # near misses: N one step too large / too small for this vector length
+                    for b2 in (b + 1, b - 1):
+                        if 1 <= b2 <= 5:
+                            bcst_muts.append(("bcst-n", "%s %s" % (f["name"], ",".join(ks + ["{1to%d}" % n])), ts[:k] + [mem_tok(mode, unit, bcst=b2)] + ts[k + 1:], 0, None))
+            # the other decorations / operand spellings on the memory form as well: {k}, {k}{z}, segment override, 32-bit address in
+            # 64-bit mode; registers 8..15 in 64-bit mode; negative immediates where the database says signed/any
+            for v in has_mem_variant[:1]:
+                if f["kmask"]:
+                    variants.append(("db-decor", v[1] + ["{k}"], v[2], 0, (RT["k"], 3)))
+                    if f["zmask"] and not v[2][0].startswith("M "):
+                        variants.append(("db-decor", v[1] + ["{k}{z}"], v[2], OPT["z"], (RT["k"], 3)))
+                if not any(o["memOff"] or o["memSeg"] for o in expl):
+                    variants.append(("db-decor", v[1] + ["fs:"], [(" ".join(t.split()[:8] + ["5"] + t.split()[9:]) if t.startswith("M ") else t) for t in v[2]], 0, None))
+                if mode == 1 and not any(o["memOff"] for o in expl):
+                    variants.append(("db-decor", v[1] + ["addr32"], [(" ".join(t.split()[:2] + [str(RT["gpd"]) if t.split()[2] == str(RT["gpq"]) else t.split()[2]] + t.split()[3:4]
+                                                                              + [str(RT["gpd"]) if t.split()[4] == str(RT["gpq"]) else t.split()[4]] + t.split()[5:])
+                                                                     if t.startswith("M ") else t) for t in v[2]], 0, None))
+            if mode == 1:
+                def hi(t):
+                    q = t.split()
+                    if q[0] == "R" and int(q[1]) in (RT["gpb_lo"], RT["gpw"], RT["gpd"], RT["gpq"], RT["xmm"], RT["ymm"], RT["zmm"]) and q[2] == "3":
+                        return "R %s 11" % q[1]
+                    if q[0] == "M" and q[3] == "5" and int(q[2]) in (RT["gpd"], RT["gpq"]):
+                        q[3] = "13"
+                        return " ".join(q)
+                    return t
+                for v in variants[:2]:
+                    ht = [hi(t) for t in v[2]]
+                    if ht != v[2] and v[0] in ("db",):
+                        variants.append(("db-decor", v[1] + ["r8-15"], ht, 0, None))
+            for k, o in enumerate(expl):
+                if o["imm"] and o["immValue"] is None and o["immSign"] in ("any", "signed") and o["imm"] >= 8:
+                    for v in variants[:2]:
+                        if v[0] == "db" and v[2][k].startswith("I "):
+                            variants.append(("db-decor", v[1] + ["imm<0"], v[2][:k] + ["I -3"] + v[2][k + 1:], 0, None))
             if f["prefixes"].get("lock"):
                 for v in has_mem_variant[:1]:
                     if v[2][0].startswith("M "):
@@ -217,6 +272,7 @@ def instantiate(forms, name_to_id, rng, tier):
                     muts.append(("er-mem", key, ts, opt | OPT["er"], extra)) if f["er"] else None
             if tier == "quick" and len(muts) > 3:
                 muts = rng.sample(muts, 3)
+            muts += bcst_muts
             for what, key, ts, opt, extra in muts:
                 out.append({"cmd": cmd(mode, iid, opt, extra, ts), "form": fi, "mode": mode, "kind": "mut:" + what, "key": key, "allowed": allowed})
     return out, skipped
